@@ -407,3 +407,59 @@ Example ex_determined :
                 ({| c_pal := c_pal ex_cfg; c_qualify := true |},
                  render {| c_pal := c_pal ex_cfg; c_qualify := true |} ex_tree (hv_links ex_view))] = true.
 Proof. split; reflexivity. Qed.
+
+(* ---- seeded round 5: renderers do not interfere ---- *)
+Lemma upd_length {A} (f : A -> A) l : forall n, length (upd n f l) = length l.
+Proof. induction l as [|x r IH]; intros [|n]; cbn; auto. Qed.
+Lemma nth_error_seq0 n : forall r, nth_error (seq 0 n) r = if r <? n then Some r else None.
+Proof.
+  intros r. destruct (r <? n) eqn:E.
+  - apply Nat.ltb_lt in E. rewrite nth_error_nth' with (d := 0) by now rewrite seq_length.
+    now rewrite seq_nth.
+  - apply Nat.ltb_ge in E. apply nth_error_None. now rewrite seq_length.
+Qed.
+Lemma upd_out {A} (f : A -> A) l : forall n, length l <= n -> upd n f l = l.
+Proof.
+  induction l as [|x r IH]; intros [|n] H; cbn in *; auto; try lia. f_equal. apply IH. lia.
+Qed.
+Lemma seq0_snoc n : seq 0 n ++ [n] = seq 0 (S n).
+Proof. now rewrite seq_S. Qed.
+Definition own_state (own : list config) : hstate := {| hs_heap := own; hs_rend := seq 0 (length own) |}.
+Lemma hstep_own dflt t ls own o :
+  hstep (fresh_default dflt) t ls (own_state own) o = (own_state (own_step dflt own o), own_draw t ls own o).
+Proof.
+  unfold own_state. destruct o as [[c|]|r b|r p|r]; cbn [hstep own_step own_draw fresh_default hs_heap hs_rend].
+  - now rewrite app_length, Nat.add_1_r, seq0_snoc.
+  - now rewrite app_length, Nat.add_1_r, seq0_snoc.
+  - rewrite nth_error_seq0. destruct (r <? length own) eqn:E.
+    + now rewrite upd_length.
+    + apply Nat.ltb_ge in E. now rewrite upd_out.
+  - rewrite nth_error_seq0. destruct (r <? length own) eqn:E.
+    + now rewrite upd_length.
+    + apply Nat.ltb_ge in E. now rewrite upd_out.
+  - rewrite nth_error_seq0. destruct (r <? length own) eqn:E.
+    + destruct (nth_error own r); reflexivity.
+    + apply Nat.ltb_ge in E. apply nth_error_None in E. now rewrite E.
+Qed.
+Lemma hrun_own dflt t ls h : forall own,
+  hrun (fresh_default dflt) t ls (own_state own) h = own_draws dflt t ls own h.
+Proof.
+  induction h as [|o r IH]; intros own; cbn [hrun own_draws]; [reflexivity|].
+  rewrite hstep_own. now rewrite IH.
+Qed.
+Lemma renderers_do_not_interfere dflt t ls h :
+  hrun (fresh_default dflt) t ls {| hs_heap := []; hs_rend := [] |} h = own_draws dflt t ls [] h.
+Proof. exact (hrun_own dflt t ls h []). Qed.
+(* the variant of seeded change C20-i: ONE module-level default configuration object (address 0 of the initial heap)
+   given to every renderer made without a configuration - the faithful model of THAT code does not meet the
+   specification: customise one default-made renderer, draw with another *)
+Definition module_default (s : hstate) : hstate * nat := (s, 0).
+Lemma shared_default_interferes :
+  exists h, hrun module_default ex_tree (hv_links ex_view) {| hs_heap := [ex_cfg]; hs_rend := [] |} h
+            <> own_draws ex_cfg ex_tree (hv_links ex_view) [] h.
+Proof. exists [HNew None; HSetQual 0 true; HNew None; HDraw 1]. vm_compute. discriminate. Qed.
+(* non-vacuity: a history with customised renderers produces drawings, and they differ *)
+Example ex_history :
+  length (own_draws ex_cfg ex_tree (hv_links ex_view) []
+            [HNew None; HSetQual 0 true; HDraw 0; HNew None; HDraw 1; HNew (Some ex_cfg); HSetPal 2 (c_pal ex_cfg); HDraw 2]) = 3.
+Proof. reflexivity. Qed.
